@@ -19,7 +19,7 @@ V_ENSURES(__CPROVER_return_value != 1 || zck->error_state == V_OLD(zck->error_st
 V_ENSURES(fd != g_win_fd || g_win_bad == 1 || g_win_bad == V_OLD(g_win_bad)) /*@C05.write_data.window_flag_monotone*/
 V_ENSURES(fd != g_win_fd || V_OLD(g_win_bad) != 0 || g_win_bad == 1 || g_fpos[G_IX(fd)] == V_OLD(g_fpos[G_IX(fd)]) || (V_OLD(g_fpos[G_IX(fd)]) >= g_win_lo && g_fpos[G_IX(fd)] <= g_win_hi)) /*@C05.write_data.window*/
 V_ENSURES(V_OLD(zck->error_state) == 0 || __CPROVER_return_value == -1) /*@C05,C12.write_data.context_in_error_gives_minus_one*/
-V_ENSURES(__CPROVER_return_value != -1 || (g_fpos[G_IX(fd)] == V_OLD(g_fpos[G_IX(fd)]) && g_wr_bytes[G_IX(fd)] == V_OLD(g_wr_bytes[G_IX(fd)]) && WW_SAME)) /*@C05.write_data.minus_one_writes_nothing*/
+V_ENSURES(__CPROVER_return_value != -1 || (g_fpos[G_IX(fd)] == V_OLD(g_fpos[G_IX(fd)]) && g_wr_bytes[G_IX(fd)] == V_OLD(g_wr_bytes[G_IX(fd)]) && WW_SAME && zck->error_state == V_OLD(zck->error_state))) /*@C05.write_data.minus_one_writes_nothing*/
 V_ENSURES(__CPROVER_return_value != 1 || !WW_IN(fd, WD_POS0(fd), length) || (g_ww_hit == V_OLD(g_ww_hit) + 1 && g_ww_val == data[g_ww_off - WD_POS0(fd)])) /*@C05.write_data.file_offset_receives_the_byte_at_the_same_distance*/
 V_ENSURES(WW_IN(fd, WD_POS0(fd), length) || WW_SAME) /*@C05.write_data.nothing_outside_the_span_is_written*/
 V_ENSURES(__CPROVER_return_value == 1 || data == NULL || !WW_IN(fd, WD_POS0(fd), length) || WW_SAME || (g_ww_hit == V_OLD(g_ww_hit) + 1 && g_ww_val == data[g_ww_off - WD_POS0(fd)])) /*@C05.write_data.partial_write_still_writes_the_right_bytes*/
